@@ -30,15 +30,25 @@ is a fixed function of (check, family); the site is ``Msg.Block.Var[ctx]:<where>
  (e) Block cache: set raw r1, deserialize_var, set raw r2 via Block.__setitem__, deserialize_var again == fresh
      deserialize(r2); same after serialize_var and after assigning Pretty(value) (cache-invalidation).
  (f) date entries (adapter class DateAdapter) under process TZ in {UTC, America/Los_Angeles, Europe/London,
-     Australia/Lord_Howe}, TZ switched with os.environ+time.tzset() only inside dedicated forked workers: the int
-     alphabet (date-roundtrip / date-decode-raises), every minute within +-2 h of each 2020-2021 DST transition of the
-     three DST zones (computed with zoneinfo) (date-roundtrip-dst), sub-second offsets for multiplier > 1
-     (date-roundtrip-subsecond).
+     Australia/Lord_Howe}, TZ switched with os.environ+time.tzset() only inside dedicated forked workers (hmc.subfieldgen
+     .tz_map; replay of a TZ witness forks as well).  Input families: 'boundary' = the int alphabet (date-roundtrip /
+     date-decode-raises), 'far-future' = alphabet members in the last day of year 9999 or later, 'dst' = every minute
+     within +-2 h of each 2020-2021 DST transition of the three DST zones, computed with zoneinfo (date-roundtrip-dst),
+     'subsecond' = raws that are not whole seconds for multiplier > 1: every microsecond 0..4095, stride 4099 up to 1 s,
+     at two base instants (date-roundtrip-subsecond).
 
-Deviations from DESIGN: payload mutation is applied to each (key, context) *base* payload (not to every generated
-payload) to stay inside the time budget; registrations whose (message, block, variable) does not exist in
-message_template.msg have no wire type and are reported in coverage (not a violation: the property quantifies over
-message variables).
+Deviations from DESIGN / things the code forced:
+  * payload mutation is applied to each (entry, context) *base* payload (thorough: every structural base -- other
+    switch branches, all-options-off, empty, single-element) rather than to every generated payload (time budget);
+  * values are built one-leaf-at-a-time from two bases (all optional members present / all absent) instead of
+    row-cyclic, so that every violation site can name the one leaf that deviates;
+  * registrations whose (message, block, variable) does not exist in message_template.msg have no wire type and are
+    reported in coverage (not a violation: the property quantifies over message variables);
+  * BitmapAdapter has no child template: its payload domain is described wire-first (any rows*cols/8 bytes);
+  * the pod literal clause compares the literal's re-encoding with the pod value's own re-encoding, so a round-trip
+    loss is reported once (under its own clause) and not again as pod-reencode;
+  * a round-trip oracle cannot see an encoder that loses information *consistently* with the decoder (value-first
+    payloads are self-consistent); C13 holds the compressed-update template against an independent reader.
 """
 from __future__ import annotations
 
